@@ -534,7 +534,14 @@ func (d *resolveUndoDecoder) readEntry() (*ResolveUndoEntry, error) {
 		}
 	}
 
-	for s := range e.Stages {
+	// Object names are stored in stage order (1, 2, 3) for the stages whose
+	// mode is not zero. Do not range over the map: its iteration order is
+	// random and would assign the names to the wrong stages.
+	for _, s := range []Stage{AncestorMode, OurMode, TheirMode} {
+		if _, ok := e.Stages[s]; !ok {
+			continue
+		}
+
 		var h plumbing.Hash
 		h.ResetBySize(d.h.Size())
 		if _, err := h.ReadFrom(d.r); err != nil {
